@@ -123,6 +123,26 @@ fn case(pair: u64, len: u16, seed: u64, rec: &mut Recorder) {
     rec.case(mix(pair << 20 | l as u64), true);
     rec.class(if l == 0 { "oracle:length=0" } else if l == 65535 { "oracle:length=65535" } else { "oracle:length>0" }, || format!("pair {:02x} {:02x} length {}", vc, fp, l));
     let mut rng = Rng::for_case(seed, pair, l as u64);
+    // payload content: the per-thread random buffer, or an address block built from address
+    // values (special classes, equal endpoints), or a payload that itself begins with the
+    // signature; what has been supplied so far must not matter to the counts
+    crate::c02::BIG.with(|b| {
+        let mut b = b.borrow_mut();
+        match rng.below(4) {
+            0 => {
+                let blk = spec::v2::address_block(&mut rng, fam);
+                b[16..16 + blk.len()].copy_from_slice(&blk);
+            }
+            1 => {
+                b[16..28].copy_from_slice(&spec::v2::SIG);
+            }
+            2 => {
+                let at = 16 + size;
+                b[at..at + 12].copy_from_slice(&spec::v2::SIG);
+            }
+            _ => rng.fill(&mut b[16..16 + 240]),
+        }
+    });
     with_big(vc, fp, len, |big| {
         // before the fixed part is complete: the number of bytes supplied
         for k in 0..16 {
@@ -136,6 +156,12 @@ fn case(pair: u64, len: u16, seed: u64, rec: &mut Recorder) {
         let mut presents = vec![16, 16 + l - 1, 16 + l / 2];
         if l > 1 {
             presents.push(17);
+        }
+        // natural cut points: the end of the address block of each family, 12 bytes into the payload
+        for cut in [12usize, 36, 216, 28, 32] {
+            if cut < l {
+                presents.push(16 + cut);
+            }
         }
         for _ in 0..3 {
             presents.push(16 + rng.below(l as u64) as usize);
@@ -177,7 +203,7 @@ impl Monitor for C17 {
         "C17"
     }
     fn rule(&self) -> &'static str {
-        "cases = (valid control pair, declared length) with the length at least the family's address size: 24 pairs x a 2048-value length ladder (all lengths below 300, powers of two +-1, the top 16 values, multiples of 4093) in quick, 24 x all 65536 lengths in thorough; per case the header is cut at every k < 16 (must be Incomplete(k)) and at 16, 17, 16+L-1, 16+L/2 and 3 random points (must be Partial(k-16, L)), then completed with exactly the missing number of 0x00 / 0xFF / random bytes (must be Ok of 16+L bytes) and with fewer (must be Partial with the updated count); every error must also be flagged incomplete; for declared lengths below the family size, and for every input of a second stream drawn from the v2 workload (control x length ladder samples, cuts, random bytes, mixes), the statement is applied literally: whatever the parser flags Incomplete(n)/Partial(have,need) must carry exact counts and a Partial must turn into a success of 16+need bytes once exactly need-have bytes are appended; non-trivial = input starting with the signature; distinct = distinct (pair, length) / inputs"
+        "cases = (valid control pair, declared length) with the length at least the family's address size: 24 pairs x a 2048-value length ladder (all lengths below 300, powers of two +-1, the top 16 values, multiples of 4093) in quick, 24 x all 65536 lengths in thorough; per case the header is cut at every k < 16 (must be Incomplete(k)) and at 16, 17, 16+L-1, 16+L/2, after 12/28/32/36/216 payload bytes and at 3 random points (must be Partial(k-16, L)), then completed with exactly the missing number of 0x00 / 0xFF / random bytes (must be Ok of 16+L bytes) and with fewer (must be Partial with the updated count); every error must also be flagged incomplete; for declared lengths below the family size, and for every input of a second stream drawn from the v2 workload (control x length ladder samples, cuts, random bytes, mixes), the statement is applied literally: whatever the parser flags Incomplete(n)/Partial(have,need) must carry exact counts and a Partial must turn into a success of 16+need bytes once exactly need-have bytes are appended; non-trivial = input starting with the signature; distinct = distinct (pair, length) / inputs"
     }
     fn streams(&self, tier: Tier) -> Vec<StreamSpec> {
         match tier {
